@@ -1107,6 +1107,21 @@ func propC03(r *Run, w *World) {
 	if !x.ok {
 		return
 	}
+	// R6: the arithmetic the accounting relies on
+	r.Rule("C03.R6", "sequence numbers are 32-bit unsigned: sequenceNum's underlying type is uint32 (the gap is computed modulo 2^32, which is what makes it roll-over aware), lastSeq is a sequenceNum, and AuditMessage.Sequence is a uint32", 3)
+	if n, err := w.Named("libaudit", "sequenceNum"); err != nil {
+		r.Anchor(err)
+	} else {
+		b, _ := n.Underlying().(*types.Basic)
+		r.Check(b != nil && b.Kind() == types.Uint32, "sequenceNum is uint32", n.Obj().Pos(), "", "sequenceNum is "+typeStr(n.Underlying())+": differences of sequence numbers no longer wrap modulo 2^32, so a gap across the roll-over comes out negative (and is dropped) or huge")
+		r.Check(types.Identical(x.fLastSeq.Type(), n), "lastSeq is a sequenceNum", x.fLastSeq.Pos(), "", "lastSeq has type "+typeStr(x.fLastSeq.Type()))
+	}
+	if fv, err := w.FieldVar("auparse", "AuditMessage", "Sequence"); err != nil {
+		r.Anchor(err)
+	} else {
+		b, _ := fv.Type().Underlying().(*types.Basic)
+		r.Check(b != nil && b.Kind() == types.Uint32, "AuditMessage.Sequence is uint32", fv.Pos(), "", "AuditMessage.Sequence is "+typeStr(fv.Type()))
+	}
 	// R1
 	r.Rule("C03.R1", "no unguarded sequence subtraction: every subtraction of sequence type involving lastSeq is dominated by a comparison (or a comparing helper) whose operands include both values", 1)
 	var subs []*ssa.BinOp
@@ -1675,7 +1690,14 @@ func propC10(r *Run, w *World) {
 		}
 	}
 	// R4
-	r.Rule("C10.R4", "maxSize and timeout are written only by the constructor from NewReassembler's parameters", 3)
+	x.configAsPassed("C10.R4")
+}
+
+// configAsPassed: the limits the caller chose are the limits that apply (shared by C10 and C19).
+func (x *reasm) configAsPassed(ruleID string) {
+	r := x.r
+	w := x.w
+	r.Rule(ruleID, "maxSize and timeout are written only by the constructor, unmodified, from NewReassembler's parameters (no default, clamp or unit change)", 3)
 	for _, fv := range []*types.Var{x.fMaxSize, x.fTimeout} {
 		for _, a := range Writes(w.FieldAccesses(fv)) {
 			want := x.newEventList.Params[0]
@@ -1916,6 +1938,7 @@ func propC19(r *Run, w *World) {
 		}
 	}
 	x.evictionLoops("C19.R4b", "each eviction hands off exactly the head (shared with C01.R4)")
+	x.configAsPassed("C19.R6")
 
 	r.Rule("C19.R5", "a Reassembler cannot be created without a Stream: NewReassembler returns (nil, err) under stream == nil before allocating", 2)
 	{
